@@ -284,11 +284,14 @@ structure MLaws (I : MOps) where
   sat : List Route → Route → Req → Bool
   /-- routes that can be found again by `remove` (every route built by `IntoRoute`) -/
   wf : Route → Prop
+  /-- routes that may be inserted: `True` for the specification-level layers; for the layers over
+  the real regex-tree model "the route's pattern is in the domain of property C08" -/
+  okIns : Route → Prop
   sat_congr : ∀ L L' r q, (∀ x, x ∈ L ↔ x ∈ L') → sat L r q = sat L' r q
   repr_empty : Repr I.empty []
   repr_congr : ∀ m L L', Repr m L → L'.Sublist L → (∀ r ∈ L, r ∈ L') → Repr m L'
   len_zero : ∀ m L, Repr m L → I.len m = 0 → L = []
-  repr_insert : ∀ m L r, Repr m L → UIds (r :: L) → Repr (I.insert r m) (r :: L)
+  repr_insert : ∀ m L r, Repr m L → UIds (r :: L) → okIns r → Repr (I.insert r m) (r :: L)
   repr_remove : ∀ m L id, Repr m L → UIds L →
     Repr (I.remove id m).1 (L.filter (fun r => r.id != id))
   remove_some : ∀ m L id r, Repr m L → UIds L → r ∈ L → wf r → r.id = id → (I.remove id m).2 = some r
